@@ -37,10 +37,10 @@ EXTENDS Naturals, Sequences, FiniteSets, TLC
 QI == 1..4                       \* QA, QB, QC, Key
 ToSub(i) == i # 2
 Overridable(i) == i \in {1, 2}
-FlavorText(i) == CASE i = 1 -> "QA[ToSubclass,EnableOverride]"
-                   [] i = 2 -> "QB[Restricted,EnableOverride]"
-                   [] i = 3 -> "QC[ToSubclass,DisableOverride]"
-                   [] i = 4 -> "Key[ToSubclass,DisableOverride]"
+FlavorText(i) == CASE i = 1 -> "QA.ToSubclass.EnableOverride"
+                   [] i = 2 -> "QB.Restricted.EnableOverride"
+                   [] i = 3 -> "QC.ToSubclass.DisableOverride"
+                   [] i = 4 -> "Key.ToSubclass.DisableOverride"
 Q0 == <<"", "", "", "">>
 Elems == {"k", "p", "q", "m"}
 Props == {"k", "p", "q"}
@@ -108,6 +108,17 @@ PosKind(F, c, pos) ==
   ELSE Kind(F, c, PosElem(pos)) \o "-" \o
        (IF pos = "mx" THEN "parameter" ELSE ElType(pos))
 
+(* detail for clause names: does a strict ancestor RESTATE the qualifier   *)
+(* (give it locally although it inherits one)?                             *)
+RestatedAbove(F, c, pos, i) ==
+  \E a \in Anc(F, c) \ {c} :
+     /\ PosRedecl(F, a, pos) /\ PosInherited(F, a, pos)
+     /\ LocalQ(F, a, pos)[i] # ""
+     /\ EQ(F, Par(F, a), pos, i) # {""}
+QDetail(F, c, pos, i) ==
+  PosKind(F, c, pos) \o "." \o FlavorText(i) \o
+  (IF RestatedAbove(F, c, pos, i) THEN ".belowRestatingAncestor" ELSE "")
+
 (*------------- which class declarations must be refused -------------------*)
 NoOverride(F, c) ==          \* redeclares an inherited element w/o Override
   {e \in Elems : Declares(F, c, e) /\ ~F[c].d.el[e].ovr /\ Inherited(F, c, e)}
@@ -125,8 +136,8 @@ DanglingOverride(F, c) ==    \* Override on an element nobody declared: silent
 RejectClauses(op, F, c) ==
   {op \o ".AcceptedRedeclarationWithoutOverride." \o ElType(e) :
        e \in NoOverride(F, c)}
-  \cup {op \o ".AcceptedDisableOverrideConflict." \o PosKind(F, c, pi[1])
-           \o "." \o FlavorText(pi[2]) : pi \in DisableConflicts(F, c)}
+  \cup {op \o ".AcceptedDisableOverrideConflict." \o
+           QDetail(F, c, pi[1], pi[2]) : pi \in DisableConflicts(F, c)}
 
 IsRejection(e) == ~e.ok /\ (e.kind = "cimerror" \/
                             (e.via = "mof" /\ e.kind = "moferror"))
@@ -172,8 +183,8 @@ QMismatch(v, adm) == IF v = "" THEN "missing"
 QualClauses(F, c, pos, obs, exact, pre) ==
   UNION {LET adm == EQ(F, c, pos, i) IN
          IF obs[i] \in adm \/ (~exact /\ obs[i] = "") THEN {}
-         ELSE {pre \o ".Qualifier." \o PosKind(F, c, pos) \o "." \o
-               FlavorText(i) \o "." \o QMismatch(obs[i], adm)} : i \in QI}
+         ELSE {pre \o ".Qualifier." \o QDetail(F, c, pos, i) \o "." \o
+               QMismatch(obs[i], adm)} : i \in QI}
 
 ElemClauses(F, c, e, r, exact, pre) ==
   LET kd == Kind(F, c, e) \o "-" \o ElType(e) IN
@@ -250,17 +261,14 @@ EnumClassesHard(s, e) ==
                                      "EnumClasses.FilterOnlyRemoves")
                         \cup FlagClauses("EnumClasses", e, r)
                    : i \in DOMAIN e.classes}
-(* the statement does not say that EnumerateClasses with all flags "on"   *)
-(* delivers Exposed(c); a difference is an observation, not a violation   *)
+(* The statement does not say that EnumerateClasses(IncludeClassOrigin=    *)
+(* TRUE) must deliver class_origin ("only remove information" is satisfied *)
+(* by dropping it); its absence is an observation, not a violation.        *)
 EnumClassesSoft(s, e) ==
-  LET F == s.cls IN
-  IF (e.name # "" /\ e.name \notin DOMAIN F) \/ ~e.ok \/ ~IsFull(e) THEN {}
-  ELSE UNION {LET r == e.classes[i] IN
-              IF r.name \notin DOMAIN F THEN {}
-              ELSE {"SOFT:" \o x : x \in
-                      ClassClauses(F, r.name, r, TRUE,
-                                   "EnumClasses.FullFlagsExposed")}
-              : i \in DOMAIN e.classes}
+  IF ~e.ok \/ e.ico # "T" THEN {}
+  ELSE F1("SOFT:EnumClasses.IncludeClassOriginTrue.NoClassOriginDelivered",
+          \A i \in DOMAIN e.classes : \A x \in Elems :
+             e.classes[i].el[x].present => e.classes[i].el[x].origin # "")
 
 InstsOf(s, C) == {x \in s.insts : x[1] \in C}
 EnumInstJudge(s, e) ==
@@ -295,6 +303,8 @@ DeleteJudge(s, e) ==
 JudgeHard(s, e) ==
   CASE e.op = "Create" -> CreateJudge(s, e)
     [] e.op = "Modify" -> ModifyJudge(s, e)
+    [] e.op = "Compile" ->      \* MOF compilation: creates or modifies
+         IF e.name \in DOMAIN s.cls THEN ModifyJudge(s, e) ELSE CreateJudge(s, e)
     [] e.op = "Get" -> GetJudge(s, e)
     [] e.op = "EnumClassNames" -> EnumNamesJudge(s, e)
     [] e.op = "EnumClasses" -> EnumClassesHard(s, e)
@@ -309,13 +319,12 @@ Judge(s, e) == JudgeHard(s, e) \cup JudgeSoft(s, e)
 (* mutating calls follow the OBSERVED outcome, so that later events are     *)
 (* judged against the forest the server really holds                        *)
 ApplyOp(s, e) ==
-  CASE e.op = "Create" ->
-         IF e.ok /\ e.name \notin DOMAIN s.cls /\ e.super # e.name
-         THEN [s EXCEPT !.cls = (e.name :> [super |-> e.super, d |-> e.d]) @@ @]
-         ELSE s
-    [] e.op = "Modify" ->
-         IF e.ok /\ e.name \in DOMAIN s.cls
-         THEN [s EXCEPT !.cls[e.name].d = e.d] ELSE s
+  CASE e.op \in {"Create", "Modify", "Compile"} ->
+         IF ~e.ok \/ e.super = e.name THEN s
+         ELSE IF e.name \in DOMAIN s.cls
+         THEN (IF e.op = "Create" THEN s ELSE [s EXCEPT !.cls[e.name].d = e.d])
+         ELSE IF e.op = "Modify" THEN s
+         ELSE [s EXCEPT !.cls = (e.name :> [super |-> e.super, d |-> e.d]) @@ @]
     [] e.op = "CreateInst" ->
          IF e.ok THEN [s EXCEPT !.insts = @ \cup {<<e.name, e.key>>}] ELSE s
     [] e.op = "Delete" ->
